@@ -211,6 +211,44 @@ def run(prog, rep, tier):
             b.get("replace") in (("const", True), None) and T(s5.ret) == ("sub", D, ch[0].result)
     rep.check("BOOTSTRAP.rows", okbs, fwhere(f5), "_bootstrap = data[rng.choice(len(data), n or len(data), replace=True)]: observed rows only",
               "_bootstrap does not return rows of `data` indexed by one seeded choice")
+    # ---------------------------------------------------------------- drf.predict(functional='sample'): which training response is handed out
+    f6 = need(prog, "drf.code.drf.predict")
+    S6 = Sym(prog)
+    try:
+        run_function(S6, f6)
+        draws = [c for c in S6.select("call", qname=f6.qname) if c.callkind == "ext" and c.target.startswith("numpy.random.") and c.target != "numpy.random.seed"]
+        sts = [x for x in S6.select("store", qname=f6.qname) if isinstance(x.base, tuple) and x.base[0] == "attr" and x.base[2] == "sample"]
+        okd, why = False, "expected one numpy.random.choice and one store into ret.sample"
+        if len(draws) == 1 and len(sts) == 1 and draws[0].target == "numpy.random.choice":
+            d, st = draws[0], sts[0]
+            b, extra = api.bind_slots(api.SLOTS["numpy.random.choice"], d.args, d.kwargs)
+            ids = ("sub", d.result, ("const", 0))
+            v = st.value
+            # value = Y.iloc[ids, :]
+            Yt = v[1][1] if v[0] == "sub" and v[1][0] == "attr" and v[1][2] == "iloc" else None
+            row_ok = Yt is not None and v[2] in (("tuple", (ids, FULL)), ids)
+            n_rows = (("sub", ("attr", Yt, "shape"), ("const", 0)), ext("len", Yt)) if Yt is not None else ()
+            pop_ok = b.get("a") in n_rows or b.get("a") in tuple(ext("range", x) for x in n_rows)
+            i6 = st.idx[1][0] if st.idx[0] == "tuple" and st.idx[1] else None
+            p_ = b.get("p")
+            p_ok = p_ is not None and p_[0] == "sub" and p_[2] == ("tuple", (i6, FULL)) and i6 is not None and i6[0] == "elem"
+            one = is_const(b.get("size", ("const", None)), 1) or b.get("size") is None
+            okd = row_ok and pop_ok and p_ok and one
+            if not okd and Yt is not None and one and p_ is not None and p_[0] == "sub" and p_[2][0] == "tuple" and len(p_[2][1]) == 2 and p_[2][1][0] == i6:
+                # draw restricted to a subset S of the training rows: position -> row must be mapped back through S
+                Sub = p_[2][1][1]
+                a_ = b.get("a")
+                if a_ in (ext("len", Sub), ext("range", ext("len", Sub))) and v[2] in (("tuple", (("sub", Sub, ids), FULL)), ("sub", Sub, ids)):
+                    okd = True
+                elif a_ == Sub and v[2] in (("tuple", (ids, FULL)), ids):
+                    okd = True          # the row labels themselves are drawn
+            why = "row read = Y.iloc[drawn id]: %s; population = all training rows of Y: %s (a = %s); p = weights[i, :] of the test point being filled: %s" % (
+                row_ok, pop_ok, fmt(b.get("a", ("const", None)))[:50], p_ok)
+        rep.check("FOREST.sample-rows", okd, fwhere(f6, draws[0].node if draws else None),
+                  "predict(functional='sample'): the id drawn over *all* training rows with weights[i, :] is the row of Y that is handed out",
+                  "the sampled response is not the training row the weights point at: " + why)
+    except Inconclusive as e:
+        rep.unk("FOREST.sample-rows", fwhere(f6), "drf.predict left the modelled fragment: %s" % e.why)
     # ---------------------------------------------------------------- RNG
     rng_rules(rep, prog, f4)
     rng_rules(rep, prog, f5)
